@@ -257,6 +257,10 @@ func jobsDirected(tier string) []Job {
 	// two records of one batch that translate to the same operation on the same name (a create, then a move in onto
 	// it): both are notifications, both are reported
 	hs = append(hs, []string{"touch w/d/n ;; mv w/o/p w/d/n"}, []string{"touch w/d/n ;; mv w/o/p w/d/n ;; rm w/d/n"}, []string{"touch w/d/n", "mv w/o/p w/d/n"}, []string{"mkdir w/d/m ;; rmdir w/d/m ;; mkdir w/d/m"})
+	// a watched sub-directory is renamed away, something is created in it while nothing lists it, then it is added
+	// under its new name in the same breath: what happened in between was not watched
+	hs = append(hs, []string{"A w/d/s", "mv w/d/s w/o/s", "touch w/o/s/y ;; A w/o/s", "touch w/o/s/z"}, []string{"A w/d/s", "mv w/d/s w/o/s", "touch w/o/s/y ;; A w/o/s ;; touch w/o/s/z"},
+		[]string{"mv w/f w/g", "write w/g ;; A w/g", "write w/g"})
 	// a rename onto an entry that is watched in its own right: Rename and Create stay adjacent
 	hs = append(hs, []string{"A w/d/a", "mv w/d/b w/d/a"}, []string{"A w/d/a", "mv w/d/b w/d/a ;; touch w/d/b"}, []string{"A w/d/a", "mv w/o/p w/d/a", "write w/d/a"})
 	for _, keep := range [][]string{{"open w/d/a", "rm w/d/a", "touch w/d/a"}, {"ln w/d/a w/h", "rm w/d/a", "touch w/d/a"}, {"ln w/d/a w/h", "mv w/d/b w/d/a"}} {
@@ -577,6 +581,28 @@ func c14Jobs(tier string) []Job {
 			}
 		}
 		jobs = append(jobs, chunk(map[string]any{"fix": "std", "init": []string{"A w/d", "A w/f"}}, hs, vars, 54)...)
+	}
+	// the same with a watched path deleted, recreated and added again while its Remove is still undelivered, and with
+	// bursts that fill the 64 KiB read buffer exactly / by one record less or more: nothing may depend on the capacity
+	{
+		var hs [][]string
+		var vars []map[string]any
+		for _, capa := range []int{0, 1, 2, 16, 4096} {
+			for _, h := range [][]string{{"rmr w/d", "mkdir w/d ;; A w/d", "touch w/d/file"}, {"rm w/f", "touch w/f ;; A w/f", "write w/f"},
+				{"rmr w/d ;; mkdir w/d ;; A w/d", "touch w/d/file"}, {"mv w/f w/g", "touch w/f ;; A w/f", "write w/f", "write w/g"}} {
+				hs = append(hs, h)
+				vars = append(vars, map[string]any{"cap": capa, "late": "q", "tag14": "true"})
+			}
+		}
+		jobs = append(jobs, chunk(map[string]any{"fix": "std", "init": []string{"A w/d", "A w/f"}}, hs, vars, 10)...)
+		hs, vars = nil, nil
+		for _, capa := range []int{0, 1, 4096} {
+			for _, h := range [][]string{{"dirburst w/d 2047"}, {"dirburst w/d 2048"}, {"dirburst w/d 2049"}, {"fileburst w/f 4096"}, {"fileburst w/f 4097"}} {
+				hs = append(hs, h)
+				vars = append(vars, map[string]any{"cap": capa, "late": "q", "tag14": "true"})
+			}
+		}
+		jobs = append(jobs, chunk(map[string]any{"fix": "std", "init": []string{"A w/d", "A w/f"}, "maxsteps": 2000000}, hs, vars, 1)...)
 	}
 	// other Watchers on the same paths, created / used / closed at every position of a history
 	other := [][]string{{"1:N 4", "1:A w/d", "1:A w/f"}, {"1:N", "1:A w/d", "1:R w/d"}, {"1:N 1", "1:A w/d", "1:C"}, {"1:N", "1:A w/f", "1:C", "1:R w/f", "1:A w/d"},
